@@ -23,6 +23,8 @@ pub struct Cfg {
     pub exotic_text: bool,
     /// control points placed exactly on / 5 ms around object ends and nodes
     pub near_object_points: bool,
+    /// distinct times closer than f64::EPSILON (0 and 5e-324, 0.5 and its successor) among objects and control points
+    pub near_times: bool,
 }
 
 impl Default for Cfg {
@@ -39,6 +41,7 @@ impl Default for Cfg {
             scramble: false,
             exotic_text: true,
             near_object_points: false,
+            near_times: false,
         }
     }
 }
@@ -459,7 +462,7 @@ pub fn color_line(r: &mut Rng, cfg: &Cfg, combo_idx: &mut usize) -> String {
 pub fn bank_info(r: &mut Rng, h: u8) -> String {
     let b = |r: &mut Rng| {
         if h >= 2 && r.chance(1, 10) {
-            (*r.pick(&["4", "-1", "9", "", "x", "2147483648"])).to_string()
+            (*r.pick(&["4", "-1", "9", "", "x", "2147483648", "-2147483648"])).to_string()
         } else {
             format!("{}", r.below(4))
         }
@@ -583,7 +586,7 @@ pub fn hit_object_line(r: &mut Rng, cfg: &Cfg, mode: u8, time: f64) -> ObjGen {
             let v = r.below(256) as i64;
             (format!("{v}"), Some(v))
         } else {
-            ((*r.pick(&["", "x", "-1", "256", "1.0", "2147483648", " 1"])).to_string(), None)
+            ((*r.pick(&["", "x", "-1", "256", "1.0", "2147483648", " 1", "-2147483648"])).to_string(), None)
         }
     } else if h >= 1 && r.chance(1, 20) {
         // extra kind bits: precedence circle > slider > spinner > hold decides
@@ -604,7 +607,7 @@ pub fn hit_object_line(r: &mut Rng, cfg: &Cfg, mode: u8, time: f64) -> ObjGen {
     let ts_if = |v: f64, is_time: bool| if is_time { fmt_time(v + cfg.shift as f64) } else { fmt_time(v) };
     // the kind the line is formatted for stays `kind`; the flags may say otherwise in hostile mode
     let snd = if h >= 2 && r.chance(1, 12) {
-        (*r.pick(&["", "x", "-1", "256", "16", "255", "2147483648", "1.0"])).to_string()
+        (*r.pick(&["", "x", "-1", "256", "16", "255", "2147483648", "1.0", "-2147483648"])).to_string()
     } else {
         format!("{}", r.below(16))
     };
@@ -621,7 +624,7 @@ pub fn hit_object_line(r: &mut Rng, cfg: &Cfg, mode: u8, time: f64) -> ObjGen {
             line.push(',');
             line.push_str(&p);
             let rep = if h >= 2 && r.chance(1, 10) {
-                (*r.pick(&["0", "-1", "9000", "9001", "", "x", "2147483648", "1.5"])).to_string()
+                (*r.pick(&["0", "-1", "9000", "9001", "", "x", "2147483648", "1.5", "-2147483648", "-2147483647"])).to_string()
             } else if r.chance(1, 40) {
                 format!("{}", 5 + r.below(40))
             } else {
@@ -745,17 +748,17 @@ pub fn timing_line(r: &mut Rng, cfg: &Cfg, time: f64, force_timing: bool) -> Str
         fmt_time(time + cfg.shift as f64)
     };
     let sig = if h >= 2 && r.chance(1, 10) {
-        (*r.pick(&["0", "-4", "", "x", "04", "2147483648", "0x"])).to_string()
+        (*r.pick(&["0", "-4", "", "x", "04", "2147483648", "0x", "-2147483648"])).to_string()
     } else {
         format!("{}", [4, 3, 7, 4, 5][r.below(5)])
     };
     let bank = if h >= 2 && r.chance(1, 10) {
-        (*r.pick(&["9", "-1", "", "x", "2147483648"])).to_string()
+        (*r.pick(&["9", "-1", "", "x", "2147483648", "-2147483648"])).to_string()
     } else {
         format!("{}", r.below(4))
     };
     let custom = if h >= 2 && r.chance(1, 10) {
-        (*r.pick(&["-5", "2147483647", "", "x", "2147483648"])).to_string()
+        (*r.pick(&["-5", "2147483647", "", "x", "2147483648", "-2147483648"])).to_string()
     } else {
         format!("{}", [0, 0, 1, 2, 3][r.below(5)])
     };
@@ -865,6 +868,9 @@ pub fn gen_map(r: &mut Rng, cfg: &Cfg) -> GenMap {
     let n_obj = if cfg.max_objects == 0 { 0 } else { r.below(cfg.max_objects + 1) };
     let mut obj_times: Vec<f64> = Vec::new();
     let mut t = if r.chance(1, 6) { -(r.below(300) as f64) } else { r.below(1000) as f64 };
+    if cfg.near_times && r.chance(1, 2) {
+        t = *r.pick(&[0.0, -0.0, 0.5, 5e-324]);
+    }
     for _ in 0..n_obj {
         obj_times.push(t);
         if r.chance(4, 5) {
@@ -892,8 +898,17 @@ pub fn gen_map(r: &mut Rng, cfg: &Cfg) -> GenMap {
     } else {
         r.below(500) as f64
     };
+    if cfg.near_times && r.chance(2, 3) {
+        tt = *r.pick(&[0.0, -0.0, 0.5, 0.25, 5e-324, 1e-17]);
+    }
     for i in 0..ntp {
         tps.push((tt, timing_line(r, cfg, tt, i == 0)));
+        if cfg.near_times && tt.abs() < 1.0 && r.chance(1, 2) {
+            // the next representable time: a different time, closer than any tolerance
+            let up = if tt == 0.0 { 5e-324 } else if tt > 0.0 { f64::from_bits(tt.to_bits() + 1) } else { f64::from_bits(tt.to_bits() - 1) };
+            let force = r.chance(1, 2);
+            tps.push((up, timing_line(r, cfg, up, force)));
+        }
         if r.chance(2, 3) {
             tt += (1 + r.below(3000)) as f64;
             if !cfg.int_times && r.chance(1, 4) {
